@@ -189,4 +189,7 @@ def run(ctx):
             ok = bool(comp)
         ctx.ob("R14b", "search:loop", ok, "loop: next() -> process_index until exhausted or false" if ok else
                "SearchImpl::search no longer loops over the algorithm's next()", b.where)
+    # traversals follow the per-slot links; a reused slot must not carry links of the removed element (R08e)
+    from rules import C08
+    C08.slot_reset_rule(ctx)
     return 0
